@@ -809,9 +809,13 @@ def r10_option_unfold(toks, stats, which=("map_or", "map", "map_or_else")):
         else:
             if len(args) != 1: raise ExtractError("R10: map arity")
             cp = closure_parts(args[0])
-            if cp is None or len(cp[0]) != 1: raise ExtractError("R10: Option::map needs a one-parameter closure literal")
-            ps, body = cp
-            new = T("(match") + recv + T("{ Some(") + ps[0] + T(") => Some(") + body + T("), None => None })")
+            if cp is None and args[0] and all(x.k == "id" or x.s == "::" for x in args[0]):
+                # E.map(PATH) -> (match E { Some(vx_o) => Some(PATH(vx_o)), None => None })
+                new = T("(match") + recv + T("{ Some(vx_o) => Some(") + args[0] + T("(vx_o)), None => None })")
+            else:
+                if cp is None or len(cp[0]) != 1: raise ExtractError("R10: Option::map needs a one-parameter closure literal or a path")
+                ps, body = cp
+                new = T("(match") + recv + T("{ Some(") + ps[0] + T(") => Some(") + body + T("), None => None })")
         line = toks[start].line
         for x in new:
             if x.line is None: x.line = None
